@@ -834,8 +834,8 @@ func c13Judge(c *c13Case) (verdicts []c13Verdict, outcome string) {
 		}
 	case "feedback":
 		if len(msgs) == 0 {
-			verdicts = append(verdicts, c13Verdict{"malformation-not-flagged:" + c.keyFormat() + ":" + c.Class,
-				"malformed input drew no feedback at all\n" + c.describe()})
+			verdicts = append(verdicts, c13Verdict{"malformation-not-flagged:" + c.Class,
+				"malformed input (" + c.keyFormat() + ") drew no feedback at all\n" + c.describe()})
 		}
 	}
 	if len(msgs) == 0 {
